@@ -323,7 +323,7 @@ func (tr *Trans) havocPointee(a *Val, pos token.Pos) {
 		case *types.Slice:
 			comp, srt := tr.eng.sorts.elemComp(u.Elem())
 			ref := "(s_arr " + a.E + ")"
-			tr.checkWrite(comp, ref, pos, comp)
+			tr.checkWriteGuarded(comp, ref, "(not (= "+ref+" 0))", pos, comp)
 			arr := tr.freshConst("hvarr", "(Array Int "+tr.sortOf(u.Elem()).Sort+")")
 			tr.upd(comp, srt, ref, arr)
 			return
@@ -952,6 +952,9 @@ func (tr *Trans) appendBuiltin(fr *Frame, res ssa.Value, c *ssa.CallCommon, args
 	}
 	comp, srt := tr.eng.sorts.elemComp(st.Elem())
 	esort := tr.sortOf(st.Elem()).Sort
+	// append may write into the spare capacity of s's backing array (capacity is not modelled):
+	// that array must therefore be one the current API call owns (or s is nil).
+	tr.checkWriteGuarded(comp, "(s_arr "+s+")", "(not (= (s_arr "+s+") 0))", pos, "backing array of the first argument of append")
 	r := tr.newRef("append")
 	arr := tr.freshConst("apparr", "(Array Int "+esort+")")
 	var elen string
